@@ -13,7 +13,7 @@
    demand (RFC 4271 FSM, RFC 4271 6.8 collision rule, damping, admission,
    shutdown); where the pinned code knowingly deviates and the properties
    allow it, the deviation is modelled and named.                           *)
-EXTENDS Integers, Sequences, FiniteSets, TLC, Open, Notif
+EXTENDS Integers, Sequences, FiniteSets, TLC, Open, Notif, DampFn
 
 CONSTANTS
   Timed,        \* TRUE: timers carry deadlines against `now`; FALSE: an armed timer may fire at any moment
@@ -652,10 +652,8 @@ PmSelectInConn(p) ==
             /\ fsm' = [fsm EXCEPT ![p]["in"] = NewFsm(c)]
   /\ UNCHANGED <<cfg, calls, conn, dial, now, out, gh>>
 
-UpdateDelay(sd, lastErr) ==
-  LET d0 == IF lastErr # Off /\ now - lastErr >= Amnesia THEN 0 ELSE sd
-      dbl == IF 2 * d0 < DampMax THEN 2 * d0 ELSE DampMax
-  IN IF d0 > 0 THEN dbl ELSE DampMin
+(* the ladder itself is DampFn!NextDelay; Damp.tla proves its invariants for unbounded time (Apalache) *)
+UpdateDelay(sd, lastErr) == NextDelay(sd, lastErr, now, Off, DampMin, DampMax, Amnesia)
 
 PmStep(p) ==
   LET m == pm[p]
